@@ -118,12 +118,19 @@ func main() {
 	self := filepath.Base(os.Args[0])
 	name := strings.TrimPrefix(self, "thriftrw-plugin-")
 	dir := os.Getenv("FAKEPLUGIN_DIR")
+	// the same plugin may be asked for twice (-p "name --inst=2"): each instance has its own script and log
+	key := name
+	for _, a := range os.Args[1:] {
+		if strings.HasPrefix(a, "--inst=") {
+			key = name + "#" + strings.TrimPrefix(a, "--inst=")
+		}
+	}
 	var s script
-	if b, err := os.ReadFile(filepath.Join(dir, name+".script.json")); err == nil {
+	if b, err := os.ReadFile(filepath.Join(dir, key+".script.json")); err == nil {
 		json.Unmarshal(b, &s)
 	}
 	var err error
-	logf, err = os.OpenFile(filepath.Join(dir, name+".log"), os.O_CREATE|os.O_WRONLY|os.O_APPEND, 0644)
+	logf, err = os.OpenFile(filepath.Join(dir, key+".log"), os.O_CREATE|os.O_WRONLY|os.O_APPEND, 0644)
 	if err != nil {
 		fmt.Fprintln(os.Stderr, "fakeplugin: cannot open log:", err)
 		os.Exit(3)
